@@ -139,7 +139,10 @@ func isPodToItself(peer1, peer2 k8s.Peer) bool {
 
 func (pe *PolicyEngine) getPeer(p string) (k8s.Peer, error) {
 	// check if input peer is cidr
-	if _, _, err := net.ParseCIDR(p); err == nil {
+	if ip, _, err := net.ParseCIDR(p); err == nil {
+		if ip.To4() == nil { // the analysis handles IPv4 addresses only
+			return nil, errors.New(netpolerrors.InvalidPeerErrStr(p))
+		}
 		peerIPBlock, err := netset.IPBlockFromCidr(p)
 		if err != nil {
 			return nil, err
@@ -147,7 +150,10 @@ func (pe *PolicyEngine) getPeer(p string) (k8s.Peer, error) {
 		return &k8s.IPBlockPeer{IPBlock: peerIPBlock}, nil
 	}
 	// check if input peer is an ip address
-	if net.ParseIP(p) != nil {
+	if ip := net.ParseIP(p); ip != nil {
+		if ip.To4() == nil { // the analysis handles IPv4 addresses only
+			return nil, errors.New(netpolerrors.InvalidPeerErrStr(p))
+		}
 		peerIPBlock, err := netset.IPBlockFromIPAddress(p)
 		if err != nil {
 			return nil, err
